@@ -87,7 +87,7 @@ def gen_case(rng, malformed=False):
 
 
 def gen_cases(rng, tier):
-    n = 500 if tier == "quick" else 6000
+    n = 1500 if tier == "quick" else 12000
     return [gen_case(rng.fork(k), malformed=(k % 25 == 24)) for k in range(n)]
 
 
